@@ -90,6 +90,12 @@ func (l *VerifLoop) Len() int { return l.w.connections.len }
 // Stop shuts the loop down the way Poll.Stop does: the submission queue first, then the connection channels.
 func (l *VerifLoop) Stop() {
 	close(l.sq)
+	// Poll.Stop closes the connection channels only after the HTTP server has stopped, i.e. after the worker has
+	// closed every listener's channel (their handlers return then). Here: wait until the loop has emptied its
+	// registry (a plain read of the counter the loop maintains), however slow the machine is.
+	for i := 0; i < 200000 && l.w.connections.len > 0; i++ {
+		time.Sleep(50 * time.Microsecond)
+	}
 	time.Sleep(200 * time.Microsecond)
 	close(l.connect)
 	close(l.disconnect)
